@@ -24,8 +24,13 @@ RULE = ("one evaluation = one step compared between mujoco_warp and MuJoCo C fro
         "without implicit damping, implicitfast, implicit, RK4), with actuator dynamics, ball and free joints; non-trivial = the step had "
         "active constraint rows or actuator dynamics or quaternion joints; distinct = (integrator, eulerdamp, constrained/unconstrained, "
         "actuator-dynamics, joint kinds, solver/cone) tuples")
-ASSUMPTIONS = ["MuJoCo 3.13 is the reference", "tolerance per component: |a-b| <= atol + rtol*max|ref| with (rtol, atol) = (1e-4, 1e-6) for qpos/act, (2e-3, 1e-5)*"
-               "timestep-scaled for qvel, (2e-2, 1e-3) for qacc_warmstart; constrained steps use the looser solver-limited values (x5)",
+ASSUMPTIONS = ["MuJoCo 3.13 is the reference", "tolerance per component: |a-b| <= atol + rtol*scale, scale = max|component| of the world (qvel: also h*max|qacc|); "
+               "unconstrained steps (no row in either engine) (rtol, atol): qpos (2e-6, 1e-6), act (1e-5, 1e-6), qvel (4e-5, 2e-6), warmstart (2e-3, 1e-3) - "
+               "float32 round-off, >= 19x the worst ratio seen on the repaired tree; constrained steps: qpos/act (5e-4, 1e-5), qvel (1e-2, 1e-4), "
+               "warmstart (1e-1, 5e-3) - solver tolerance",
+               "constrained steps are skipped and counted when the reference does not meet the tolerance itself (h*|M^-1 (M qacc - qfrc_smooth - qfrc_constraint)| "
+               "of MuJoCo's own solution above a quarter of the qvel tolerance), when either solver needs more than 40 iterations, or when a row has D >= 1e12 "
+               "(vanishing Jacobian)",
                "steps where the two engines assemble different constraint rows (multiset of efc_aref / efc_D differs by more than 1e-3 relative: contact "
                "frames and row assembly are C04/C05, not claimed) or see different contact sets are skipped and counted",
                "steps where either solver hit its iteration limit, or where the number of constraint rows differs between the two engines (a distance "
